@@ -80,3 +80,9 @@ claim("C15", "exploration", "deviation-bounded exhaustive enumeration of atom ta
       "structure, emitted in both formats by an independent emitter: both reader generations report the residues, atoms and coordinates of the abstract "
       "table, agree with the O3'-P < 2.4 A reference on connectivity (thresholds bracketed at 2.39/2.395/2.405/2.41) and on connected segments, and agree on |chi| to 1e-9.",
       "One model, no altlocs; chi by magnitude only; structures not representable as PDB are read as mmCIF only.", "DESIGN.md 3/C15")
+
+claim("C18", "exploration", "exhaustive enumeration of a construction lattice (phi x bond lengths x bond angles x rigid motions) and of all corpus torsions on the real code against a reference formula",
+      "On every lattice point (74 phi values x 8/27 length triples x 9/25 angle pairs x 27 rotations x 2 translations) both torsion functions are compared with the "
+      "constructed phi (value, range, reversal, mirroring, mutual agreement), and every backbone/chi torsion of 7/14 corpus structures through all four "
+      "code paths with the reference formula; the sign inversion of tertiary_v2 is a recorded known finding, every other deviation is a violation.",
+      "Reference formula and NeRF construction in mc/ref/reftorsion.py (cross-checked against each other); non-degenerate inputs only.", "DESIGN.md 3/C18")
